@@ -19,7 +19,8 @@ func init() {
 			"R1 every function reachable from a bus handler of the store that begins a transaction holds the single writer mutex from before Begin until after Commit/Rollback, and all of them use the same mutex; " +
 			"R2 the cached root id, written after construction, is accessed in handler-reachable code only under a common lock (writes in write mode); " +
 			"R3 inside an open transaction every read and write goes through that transaction (so values written are derived from a consistent snapshot); " +
-			"R4 every path of every request handler sends exactly one reply (none only where the reply cannot be encoded); R5 on stop every subscription is unsubscribed before the database is closed. " +
+			"R4 every path of every request handler sends exactly one reply (none only where the reply cannot be encoded); R5 on stop every subscription is unsubscribed before the database is closed; " +
+			"R8 no subscription of the store gets pending limits below the NATS client's defaults (requests beyond a lowered limit are dropped by the client while the handler is busy, without a reply). " +
 			"Data races in general, SQLite's own locking, stale reads and deadlock freedom of the run group are not decided.",
 		Assumptions: []string{
 			"sync.Mutex / sync.RWMutex semantics; one handler goroutine per NATS subscription",
@@ -93,6 +94,7 @@ func runC20(c *kit.Ctx) {
 	r5 := c.Rule("R5", "unsubscribe before closing the database", 1)
 	r6 := c.Rule("R6", "consistent lock order", 1)
 	r7 := c.Rule("R7", "no blocking bus request from a store handler", 6)
+	r8 := c.Rule("R8", "request subscriptions keep the client's pending limits", 1)
 
 	reach := handlerReachable(c)
 	if len(reach) < 15 {
@@ -236,6 +238,9 @@ func runC20(c *kit.Ctx) {
 
 	// ---- R7
 	c20SelfRequest(c, r7)
+
+	// ---- R8
+	c20PendingLimits(c, r8)
 }
 
 // c20SelfRequest: each store subscription is served by one goroutine.  A
